@@ -52,6 +52,30 @@ Record Ghost (n : nat) (es : list (nat * nat)) (s : dsu) (rank rep : nat -> nat)
 Definition Inv (n : nat) (es : list (nat * nat)) (s : dsu) : Prop :=
   exists rank rep, Ghost n es s rank rep.
 
+(** a whole history on one value: the calls in order, stopping at the first panic *)
+Fixpoint run (s : dsu) (ops : list op) : res (dsu * list ret) :=
+  match ops with
+  | [] => Ok (s, [])
+  | o :: t =>
+      match step s o with
+      | Ok (s', r) =>
+          match run s' t with
+          | Ok (s'', rs) => Ok (s'', r :: rs)
+          | Panic => Panic
+          | Fuel => Fuel
+          end
+      | Panic => Panic
+      | Fuel => Fuel
+      end
+  end.
+
+(** element count and union requests since the last reset, after the history [ops] *)
+Fixpoint ghost_run (n : nat) (es : list (nat * nat)) (ops : list op) : nat * list (nat * nat) :=
+  match ops with
+  | [] => (n, es)
+  | o :: t => ghost_run (ghost_n n o) (ghost_es es o) t
+  end.
+
 (** [chain pa v r k]: following the parent array [pa] from [v] for [k] steps arrives at the root [r] *)
 Inductive chain (pa : list nat) : nat -> nat -> nat -> Prop :=
 | chain_root r : nth_error pa r = Some r -> chain pa r r 0
@@ -60,6 +84,19 @@ Inductive chain (pa : list nat) : nat -> nat -> nat -> Prop :=
 (** the value [par] returns, if it returns *)
 Definition par_val (s : dsu) (v : nat) : option nat :=
   match par s v with Ok (_, r) => Some r | _ => None end.
+
+(** is every index of the call below the element count? (a call with an index out of range panics) *)
+Definition in_range (n : nat) (o : op) : bool :=
+  match o with
+  | Un u v | Check u v => (u <? n) && (v <? n)
+  | Par v | Size v => v <? n
+  | Reset _ => true
+  end.
+
+(** several live copies: what [mstep] can produce from a single fresh value *)
+Inductive mreach : list dsu -> Prop :=
+| mreach_new n : mreach [new n]
+| mreach_step cs m cs' c r : mreach cs -> mstep cs m = Ok (cs', c, r) -> mreach cs'.
 
 (** calls that are lookups *)
 Definition is_lookup (o : op) : bool :=
